@@ -899,6 +899,7 @@ def trigger(fmt: str, small: Any, res: tuple) -> str:
 def search_format(ck: Ck, name: str, n: int) -> None:
     fmt = U.FORMATS[name]
     found: dict[str, tuple] = {}
+    shrinks = 0
     for i in range(n):
         spec = fmt.gen(ck.rng)
         ck.count(f'roundtrip_{name}')
@@ -914,6 +915,13 @@ def search_format(ck: Ck, name: str, n: int) -> None:
         kind = (res[0], res[1])
         if sum(1 for k in found.values() if k[0] == kind) >= 3:
             continue
+        if shrinks >= 12:
+            # a writer broken for most inputs fails in many different places: the first dozen shrunk replays are enough,
+            # later kinds are still reported (unshrunk) but must not cost 250 round trips each
+            key = f'{name}:{res[0]}:{res[1]}:{trigger(name, spec, res)}'
+            found.setdefault(key, (kind, spec, res))
+            continue
+        shrinks += 1
 
         def fails(s, kind=kind):
             q = U.roundtrip(fmt, s)
@@ -964,7 +972,12 @@ def image_extra(ck: Ck, n: int) -> None:
         except Exception as e:
             ck.violation(f'scenes-image:write-error:{type(e).__name__}:invariants', 'scenes.image could not be written', {'format': 'scenes-image', 'spec': spec})
             continue
-        crcs = U.image_table_crcs(data)
+        try:
+            crcs = U.image_table_crcs(data)
+        except Exception as e:
+            ck.violation(f'scenes-image:table-unreadable:{type(e).__name__}', 'the header of the written scenes.image does not lead to a readable '
+                         f'entry table (count / offset fields): {e!r}'[:300], {'format': 'scenes-image', 'spec': spec})
+            continue
         if crcs != sorted(crcs):
             ck.violation('scenes-image:table-not-sorted', 'entry table of the written scenes.image is not sorted by CRC', {'format': 'scenes-image', 'spec': spec, 'crcs': crcs})
         try:
